@@ -1,17 +1,23 @@
 """C14 - compilation is deterministic and independent of what the same process compiled before.
 
-MC  : History.tla (process state = weight cache, equivalence-id memo, address map, debug database, RNG;
-      Compile(letter) for the entry points main / convert / convert_bytes with the clearing each of them really
-      does).  History_MC.cfg (Policy "as_is") is explored exhaustively for all histories of length <= 3 over a
-      24-letter alphabet and prints, per history, through which door each step can read earlier state: that is
-      the replay plan.  Controls: as_is violates HistoryIndependent and NoFailureFromHistory (the design permits the
-      leaks), Policy "clear_at_entry" satisfies them, and without the reseeding of the RNG it does not.
+MC  : History.tla (process state = weight cache, equivalence-id memo, address map, debug database, RNG, and the
+      caller-owned buffer the model arrives in; Compile(letter) for the entry points main / convert /
+      convert_bytes with the clearing each of them really does; a letter = entry point x (model, options) x
+      container).  History_MC.cfg (Policy "as_is", a reader that keeps views of the caller's buffer) is explored
+      exhaustively for all histories of length <= 3 over a 26-letter alphabet and prints, per history, through
+      which door each step can read earlier state: that is the replay plan.  Controls: as_is violates
+      HistoryIndependent and NoFailureFromHistory (the design permits the leaks), Policy "clear_at_entry"
+      satisfies all invariants, without the reseeding of the RNG it does not, clearing only the caches at entry
+      leaks the debug database into <net>_debug.xml, and a reader that does not copy violates
+      CallerStateUntouched, HistoryIndependent and ContainerIndependent.
 S2C : every selected history is replayed in ONE fresh interpreter (harness/hist_driver.py, PYTHONHASHSEED set,
       the working tree's C codec) calling vela.main / vela.convert / vela.convert_bytes in sequence.
       A second stage does the same over generated corpus networks with their option points: X, X;X, P;X, ...
 C2S : HistoryTrace.tla validates every recorded step: digests equal to the isolated reference
-      (HistoryIndependent), no failure that the isolated run does not have (NoFailureFromHistory), equal under
-      PYTHONHASHSEED 0/1/2, equal through the three entry points; the observed cache reads/writes are compared
+      (HistoryIndependent: output model, summary and every other file the options make the compilation write),
+      no failure that the isolated run does not have (NoFailureFromHistory), equal under PYTHONHASHSEED 0/1/2,
+      same outcome through the three entry points and the bytes-like containers of convert_bytes
+      (EntryPointIndependent), the object handed to the entry point unchanged (CallerStateUntouched); the observed cache reads/writes are compared
       with History.tla and differences are reported as model drift (never as a violation).
 """
 import json
@@ -30,7 +36,10 @@ from ..common import Run, MachineryError, PY, REPO, seed
 DRIVER = os.path.join(os.path.dirname(os.path.dirname(os.path.abspath(__file__))), "hist_driver.py")
 ENTRIES = ("main", "convert", "convert_bytes")
 U55 = ["--accelerator-config", "ethos-u55-128"]
-PROPS = ("HistoryIndependent", "NoFailureFromHistory", "HashSeedIndependent", "EntryPointIndependent")
+PROPS = ("HistoryIndependent", "NoFailureFromHistory", "HashSeedIndependent", "EntryPointIndependent", "CallerStateUntouched")
+CONTAINERS = ("file", "ba", "shared", "mvrw", "mvro")
+DDB = ["--enable-debug-db"]
+DBG = ["--enable-debug-db", "--verbose-performance"]
 CAP_PER_GROUP = 6          # replay files written per (property, signature); every class is listed in the evidence
 
 
@@ -71,7 +80,8 @@ HC_CANDIDATES = [241, 119, 273, 209, 163, 3]
 
 
 def alphabet(sd, hc_seed=HC_CANDIDATES[0]):
-    """models: name -> description; mos: name of (model, options) -> {model, args, acc}; letters: [(entry, mo)]."""
+    """models: name -> description; mos: name of (model, options) -> {model, args, acc, opts};
+    letters: [(entry, mo, container)]."""
     def conv(s):
         n = netgen.Net(s)
         return n.desc([n.conv(n.fm("in", [1, 8, 8, 8], is_input=True), 8, 3)])
@@ -87,17 +97,28 @@ def alphabet(sd, hc_seed=HC_CANDIDATES[0]):
         x = n.fm("in", [1, 6, 6, 8], is_input=True)
         return n.desc([n.unary("TANH", n.conv(x, 8, 3, oscale=0.05, ozp=0))])
 
-    models = {"convA": conv(2 * sd + 1), "convB": conv(2 * sd + 2), "meanA": mean(8, 4), "meanB": mean(4, 8),
-              "tanhA": tanh("A"), "tanhB": tanh("B"), "hcA": hc_net(hc_seed)}
-    mos = {m: {"model": m, "args": [], "acc": "ethos-u65-256"} for m in models}
+    def pad_nc():
+        # PAD of batch and channels at once: split_pad_to_sub_pad rewrites the paddings constant of the network in place
+        n = netgen.Net(11 + sd)
+        x = n.fm("in", [1, 6, 6, 8], is_input=True)
+        return n.desc([n.pad(n.conv(x, 8, 3), [[1, 0], [0, 0], [0, 0], [0, 8]])])
+
+    models = {"convA": conv(2 * sd + 1), "meanA": mean(8, 4), "meanB": mean(4, 8),
+              "tanhA": tanh("A"), "tanhB": tanh("B"), "hcA": hc_net(hc_seed), "padNC": pad_nc()}
+    mos = {m: {"model": m, "args": [], "acc": "ethos-u65-256", "opts": []} for m in models}
     for m in ("convA", "meanA", "tanhA"):
-        mos[m + "@u55"] = {"model": m, "args": list(U55), "acc": "ethos-u55-128"}
-    letters = [(e, mo) for e in ENTRIES for mo in models] + [("main", mo) for mo in mos if "@" in mo]
+        mos[m + "@u55"] = {"model": m, "args": list(U55), "acc": "ethos-u55-128", "opts": []}
+    mos["convA+dbg"] = {"model": "convA", "args": list(DBG), "acc": "ethos-u65-256", "opts": ["ddb"]}
+    letters = [(e, mo, "file") for e in ("main", "convert") for mo in models if (e, mo) != ("convert", "padNC")] \
+        + [("convert_bytes", mo, "ba") for mo in models if mo != "padNC"] \
+        + [("convert_bytes", "padNC", c) for c in ("shared", "mvrw", "mvro")] \
+        + [("main", mo, "file") for mo in mos if mo not in models]
     return models, mos, letters
 
 
 def lname(letter):
-    return "%s:%s" % letter
+    e, mo, c = letter
+    return "%s%s:%s" % (e, "" if c in ("file", "ba") else "/" + c, mo)
 
 
 # ------------------------------------------------------------------------------------- MC
@@ -120,15 +141,27 @@ def model_check(run):
     if not plan:
         raise MachineryError("History MC printed no PLAN lines")
     controls = {}
-    for cfg, want, what in (("History_AsIs_HI.cfg", "invariant", "as_is must permit a changed result"),
-                            ("History_AsIs_NF.cfg", "invariant", "as_is must permit a failure caused by history"),
-                            ("History_Fixed.cfg", "ok", "clear_at_entry must satisfy all three invariants"),
-                            ("History_NoSeed.cfg", "invariant", "without reseeding the RNG the result must depend on history")):
-        r = tlc.run("History_MC", cfg, workers=4, timeout=600)
-        if r["status"] != want:
-            raise MachineryError("design control %s: %s (TLC status %s)\n%s" % (cfg, what, r["status"], r["output"][-1500:]))
+    ctl = (("History_AsIs_HI.cfg", "HistoryIndependent", "as_is must permit a changed result"),
+           ("History_AsIs_NF.cfg", "NoFailureFromHistory", "as_is must permit a failure caused by history"),
+           ("History_Fixed.cfg", None, "clear_at_entry with a copying reader must satisfy all invariants"),
+           ("History_NoSeed.cfg", "HistoryIndependent", "without reseeding the RNG the result must depend on history"),
+           ("History_CachesOnly.cfg", "HistoryIndependent", "clearing only the caches at entry must leak the debug database "
+                                                            "into the files of a later --enable-debug-db compilation"),
+           ("History_CachesOnly_NF.cfg", None, "... and nothing else"),
+           ("History_NoCopy_CS.cfg", "CallerStateUntouched", "a reader keeping views must let an in-place rewrite modify the caller's buffer"),
+           ("History_NoCopy_HI.cfg", "HistoryIndependent", "... and change the next compilation of the kept buffer"),
+           ("History_NoCopy_CI.cfg", "ContainerIndependent", "... and fail on a read-only container"))
+    with ThreadPoolExecutor(len(ctl)) as ex:
+        outs = list(ex.map(lambda c: tlc.run("History_MC", c[0], workers=2, timeout=900), ctl))
+    for (cfg, want, what), r in zip(ctl, outs):
+        if r["status"] != ("invariant" if want else "ok") or (want and want not in str(r.get("violated"))):
+            raise MachineryError("design control %s: %s (TLC status %s, violated %s)\n%s"
+                                 % (cfg, what, r["status"], r.get("violated"), r["output"][-1500:]))
         run.add_mc("History(%s)" % cfg[8:-4], r)
         controls[cfg] = {"status": r["status"], "violated": r.get("violated"), "states": r["distinct"]}
+    # the two new doors must be what these controls trip over, not one of the old ones
+    if "ddb |-> TRUE" not in outs[4]["trace_text"] or "buf |-> TRUE" not in outs[7]["trace_text"]:
+        raise MachineryError("design controls CachesOnly / NoCopy_HI are violated through another door than D / B")
     run.cov["design_controls"] = controls
     return plan
 
@@ -179,19 +212,19 @@ def _sig(exc, msg):
 
 
 def outcome(rec):
-    """step record of the driver -> [ok, exc, dig, csv] (strings; '' where absent)."""
+    """step record of the driver -> [ok, exc, dig, csv, art] (strings; '' where absent; art = [[file, digest]...])."""
     if rec is None:
-        return {"ok": False, "exc": "ProcessDied", "dig": "", "csv": ""}
+        return {"ok": False, "exc": "ProcessDied", "dig": "", "csv": "", "art": []}
     if rec.get("died"):
-        return {"ok": False, "exc": "ProcessDied rc=%s" % rec["died"], "dig": "", "csv": ""}
+        return {"ok": False, "exc": "ProcessDied rc=%s" % rec["died"], "dig": "", "csv": "", "art": []}
     if rec["exc"]:
-        return {"ok": False, "exc": _sig(rec["exc"], rec["msg"]), "dig": "", "csv": ""}
+        return {"ok": False, "exc": _sig(rec["exc"], rec["msg"]), "dig": "", "csv": "", "art": []}
     if rec["rc"] != 0:
         tail = [ln for ln in (rec.get("stdout_tail") or "").splitlines() if ln.strip()]
-        return {"ok": False, "exc": _sig("Rejected", tail[-1] if tail else "rc=%s" % rec["rc"]), "dig": "", "csv": ""}
+        return {"ok": False, "exc": _sig("Rejected", tail[-1] if tail else "rc=%s" % rec["rc"]), "dig": "", "csv": "", "art": []}
     if not rec["digest"]:
-        return {"ok": False, "exc": "NoOutput", "dig": "", "csv": ""}
-    return {"ok": True, "exc": "", "dig": rec["digest"], "csv": rec["csv"] or ""}
+        return {"ok": False, "exc": "NoOutput", "dig": "", "csv": "", "art": []}
+    return {"ok": True, "exc": "", "dig": rec["digest"], "csv": rec["csv"] or "", "art": [list(a) for a in rec.get("art") or []]}
 
 
 class Replayer:
@@ -213,8 +246,8 @@ class Replayer:
         for k, (h, sd) in enumerate(wanted):
             if sd not in envs:
                 envs[sd] = _env(sd)
-            steps = [{"entry": self.table[x]["entry"], "model": self.table[x]["model"], "args": self.table[x]["args"]}
-                     for x in h]
+            steps = [{"entry": self.table[x]["entry"], "model": self.table[x]["model"], "args": self.table[x]["args"],
+                      "container": self.table[x]["container"]} for x in h]
             jobs.append({"id": self.n + k, "steps": steps, "env": envs[sd], "dir": self.dir})
         self.n += len(jobs)
         t0 = time.time()
@@ -257,9 +290,13 @@ def _proj(rec, prev_after):
             "rngb": prev_after["rng"] if prev_after else "", "observed": True}
 
 
-def build_events(rp, items, tid0, peers_of):
-    """items: list of (history, seed).  Returns (events, meta) with meta[t] = (history, seed)."""
+def build_events(rp, items, tid0, peers_of, iso_of=None):
+    """items: list of (history, seed).  Returns (events, meta) with meta[t] = (history, seed).
+    iso_of(x) -> (step record of the reference run, "same" | "peer"): "same" = the same letter compiled alone,
+    "peer" = the same model and options compiled alone through convert_bytes(bytearray) (another container)."""
     events, meta = [], {}
+    if iso_of is None:
+        iso_of = lambda x: (rp.results[((x,), 0)]["steps"][0], "same")
     for k, (h, sd) in enumerate(items):
         t = tid0 + k
         meta[t] = (h, sd)
@@ -269,18 +306,22 @@ def build_events(rp, items, tid0, peers_of):
         for i, x in enumerate(h):
             rec = r["steps"][i]
             o = outcome(rec)
-            iso_rec = rp.results[((x,), 0)]["steps"][0]
+            iso_rec, ref = iso_of(x)
             iso = outcome(iso_rec)
             zo = outcome(z["steps"][i])
             pj = _proj(rec, prev)
             if not pj.pop("observed"):
                 # nothing is known about the caches after a crash of the interpreter: the history ends here
                 pass
+            seen = rec is not None and not rec.get("died")
             ev = {"t": t, "i": i + 1, "n": len(h), "e": rp.table[x]["entry"], "mo": rp.table[x]["mo"],
+                  "c": rp.table[x]["container"], "mdl": rp.table[x]["mdl"], "opts": rp.table[x]["opts"], "ref": ref,
                   "acc": rp.table[x]["acc"], "seed": sd, "ok": o["ok"], "exc": o["exc"], "dig": o["dig"], "csv": o["csv"],
-                  "iok": iso["ok"], "iexc": iso["exc"], "idig": iso["dig"], "icsv": iso["csv"],
-                  "zok": zo["ok"], "zexc": zo["exc"], "zdig": zo["dig"], "zcsv": zo["csv"],
-                  "peers": peers_of(x) if (len(h) == 1 and sd == 0 and o["ok"]) else [],
+                  "art": o["art"],
+                  "iok": iso["ok"], "iexc": iso["exc"], "idig": iso["dig"], "icsv": iso["csv"], "iart": iso["art"],
+                  "zok": zo["ok"], "zexc": zo["exc"], "zdig": zo["dig"], "zcsv": zo["csv"], "zart": zo["art"],
+                  "inb": rec["inb"] if seen else "", "ina": rec["ina"] if seen else "", "ino": rec["ino"] if seen else "",
+                  "peers": peers_of(x) if (len(h) == 1 and sd == 0) else [],
                   "irnga": iso_rec["after"]["rng"] if iso_rec and not iso_rec.get("died") else ""}
             ev.update(pj)
             events.append(ev)
@@ -328,7 +369,7 @@ def negative_controls(run, events):
         by_t.setdefault(ev["t"], []).append(ev)
     for t, evs in by_t.items():
         if len(evs) == 2 and all(e["ok"] and e["iok"] and e["dig"] == e["idig"] and e["csv"] == e["icsv"] and e["seed"] == 0
-                                 for e in evs):
+                                 and e["art"] == e["iart"] and e["art"] and e["ina"] == e["inb"] and e["ref"] == "same" for e in evs):
             base = evs
             break
     if base is None:
@@ -337,34 +378,63 @@ def negative_controls(run, events):
         a, b = dict(base[0], t=tid, peers=[]), dict(base[1], t=tid, peers=[])
         b.update(kw)
         return [a, b]
-    ctl = mut(1) + mut(2, dig="corrupted") + mut(3, ok=False, exc="AssertionError injected", dig="", csv="") \
-        + mut(4, zdig="other") + [dict(base[0], t=5, n=1, peers=["other-entry-digest"])] \
-        + mut(6, ama=0 if base[1]["ama"] else 7)
+    art2 = [list(a) for a in base[1]["art"]]
+    extra = art2 + [["net_debug.xml", "corrupted"]]                   # one more file than alone
+    other = art2[:-1] + [[art2[-1][0], "corrupted"]]                  # same files, one with other contents
+    ctl = mut(1) + mut(2, dig="corrupted") + mut(3, ok=False, exc="AssertionError injected", dig="", csv="", art=[]) \
+        + mut(4, zdig="other") + [dict(base[0], t=5, n=1, peers=[{"ok": True, "dig": "other-entry-digest", "l": "x"}])] \
+        + mut(6, ama=0 if base[1]["ama"] else 7) \
+        + mut(7, art=extra, zart=extra) + mut(8, art=other, zart=other) + mut(9, ina="corrupted") \
+        + [dict(base[0], t=10, n=1, peers=[{"ok": False, "dig": "", "l": "x"}])] \
+        + [dict(base[0], t=11, n=1, peers=[{"ok": True, "dig": base[0]["dig"], "l": "x"}])] \
+        + mut(12, ref="peer", dig="corrupted", zdig="corrupted") + mut(13, zart=other)
     res2, v = tlc.validate_traces("HistoryTrace", "HistoryTrace.cfg", ctl)
     got = {(x[0], x[2]) for x in v}
-    want = {(2, "HistoryIndependent"), (3, "NoFailureFromHistory"), (4, "HashSeedIndependent"), (5, "EntryPointIndependent")}
+    want = {(2, "HistoryIndependent"), (3, "NoFailureFromHistory"), (4, "HashSeedIndependent"), (5, "EntryPointIndependent"),
+            (7, "HistoryIndependent"), (8, "HistoryIndependent"), (9, "CallerStateUntouched"), (10, "EntryPointIndependent"),
+            (12, "EntryPointIndependent"), (13, "HashSeedIndependent")}
     missing = want - got
     # controls 2 and 3 also differ from their seed-0 twin (the z fields are the clean ones): that clause fires as well
-    spurious = {g for g in got if g[0] in (1, 6) or (g not in want and g[1] != "HashSeedIndependent")}
+    spurious = {g for g in got if g[0] in (1, 6, 11) or (g not in want and g[1] != "HashSeedIndependent")}
     dl = [p for p in res2["printed"] if p.startswith('<<"DRIFT"')]
     dr = {(x[0], x[2]) for d in dl for x in json.loads(tlc.parse_value(d)[1])}
-    if missing or spurious or (6, "addrmap.cleared") not in dr:
+    if missing or spurious or (6, "addrmap.cleared") not in dr or (9, "cbuf.written") not in dr:
         raise MachineryError("negative control of HistoryTrace failed: missing %s spurious %s drift %s" % (missing, spurious, sorted(dr)))
-    return {"rejected": sorted("%d:%s" % g for g in got), "drift_detected": sorted("%d:%s" % g for g in dr if g[0] == 6)}
+    return {"rejected": sorted("%d:%s" % g for g in got), "drift_detected": sorted("%d:%s" % g for g in dr if g[0] in (6, 9))}
 
 
 # ------------------------------------------------------------------------------------- classification
+def _art_diff(a, b):
+    """which written files differ (kind of file, not its full name: the name carries the network)"""
+    da, db = dict(map(tuple, a)), dict(map(tuple, b))
+    kinds = sorted({re.sub(r"^.*?_(vela|summary|debug|per-layer)", r"\1", os.path.basename(n)) if "_" in n else n
+                    for n in set(da) | set(db) if da.get(n) != db.get(n)})
+    return "files differ: " + ", ".join(k if len(k) < 30 else k[:30] for k in kinds)
+
+
 def what_differs(ev, prop):
     if prop == "NoFailureFromHistory":
         return ev["exc"]
+    if prop == "CallerStateUntouched":
+        return "the %s handed to %s was modified" % ({"file": "model file", "mvro": "bytes object behind the memoryview",
+                                                       "mvrw": "bytearray behind the memoryview"}.get(ev["c"], "bytearray"), ev["e"])
     if prop == "HistoryIndependent":
         if not ev["iok"]:
             return "succeeds but fails alone"
-        return "output differs" if ev["dig"] != ev["idig"] else "summary differs"
+        return "output differs" if ev["dig"] != ev["idig"] else "summary differs" if ev["csv"] != ev["icsv"] \
+            else _art_diff(ev["art"], ev["iart"])
     if prop == "HashSeedIndependent":       # the seed is not part of the signature: one class per history
         if ev["ok"] != ev["zok"] or ev["exc"] != ev["zexc"]:
             return "hash seeds disagree: %s" % (ev["exc"] or "succeeds")
-        return "hash seeds disagree: %s" % ("output differs" if ev["dig"] != ev["zdig"] else "summary differs")
+        return "hash seeds disagree: %s" % ("output differs" if ev["dig"] != ev["zdig"] else "summary differs"
+                                            if ev["csv"] != ev["zcsv"] else _art_diff(ev["art"], ev["zart"]))
+    if ev["ref"] == "peer":
+        if ev["ok"] != ev["iok"]:
+            return "%s while convert_bytes(bytearray) %s" % (ev["exc"] or "succeeds", ev["iexc"] or "succeeds")
+        return "output differs from convert_bytes(bytearray)"
+    bad = [p for p in ev["peers"] if p["ok"] != ev["ok"]]
+    if bad:
+        return "%s while %s %s" % (ev["exc"] or "succeeds", bad[0]["l"].split(":")[0], "succeeds" if bad[0]["ok"] else "fails")
     return "output differs between entry points"
 
 
@@ -447,6 +517,10 @@ def twins(sd):
     add("sigmB", lambda n: n.unary("LOGISTIC", n.conv(n.fm("in", [1, 5, 7, 8], is_input=True), 16, 3, oscale=0.05, ozp=0)))
     add("meanC", lambda n: n.mean(n.fm("in", [1, 6, 6, 16], is_input=True)))
     add("meanD", lambda n: n.mean(n.conv(n.fm("in", [1, 4, 9, 8], is_input=True), 16, 1)))
+    # rewrites that modify a constant of the input network in place (split_pad_to_sub_pad) or replace the PAD by
+    # concatenations with synthesised constants: the caller's buffer must not see any of it
+    add("padNC", lambda n: n.pad(n.conv(n.fm("in", [1, 5, 6, 8], is_input=True), 8, 3), [[1, 0], [0, 0], [0, 0], [0, 8]]))
+    add("padC", lambda n: n.pad(n.conv(n.fm("in", [1, 6, 5, 8], is_input=True), 8, 1), [[0, 0], [0, 0], [0, 0], [8, 8]]))
     return out
 
 
@@ -501,12 +575,19 @@ def seed_family(sd):
     return out
 
 
+def container_history(i):
+    """one caller, one kept bytearray: convert_bytes(kept); convert_bytes(writable view of it); convert_bytes(read-only
+    view of a bytes copy).  The first step is the isolated reference of the others."""
+    sh, rw, ro = ("convert_bytes/%s:s%d" % (c, i) for c in ("shared", "mvrw", "mvro"))
+    return (sh, rw, ro)
+
+
 def sweep_items(nets, tier):
     """histories over generated corpus networks (letter = main:s<i> with the entry's option point)."""
     items = []
     for i in range(len(nets)):
         x, p = "main:s%d" % i, "main:s%d" % ((i - 1) % len(nets))
-        items += [((x,), 0), ((x,), 1), ((x, x), 0), ((p, x), 0)]
+        items += [((x,), 0), ((x,), 1), ((x, x), 0), ((p, x), 0), (container_history(i), 0)]
         if nets[i]["family"].startswith("seed:"):
             # string hashing differences need a few seeds to show: every entry point alone under more hash seeds
             cb, cv = "convert_bytes:s%d" % i, "convert:s%d" % i
@@ -516,7 +597,7 @@ def sweep_items(nets, tier):
                 items += [((cv,), s) for s in [0, 1] + list(more)]
         if tier == "thorough":
             items += [((x,), 2), ((x, p, x), 0), ((p, x), 1), (("convert_bytes:s%d" % i,), 0),
-                      (("convert_bytes:s%d" % i, "convert_bytes:s%d" % i), 0)]
+                      (("convert_bytes:s%d" % i, "convert_bytes:s%d" % i), 0), (("convert_bytes/mvro:s%d" % i,), 0)]
     return list(dict.fromkeys(items))
 
 
@@ -533,27 +614,33 @@ def _write_models(d, models):
 
 def _alphabet_table(mdir, models, mos, letters):
     paths = _write_models(mdir, models)
-    return {lname((e, mo)): {"entry": e, "model": paths[mos[mo]["model"]], "args": mos[mo]["args"] if e == "main" else [],
-                             "mo": mo, "acc": mos[mo]["acc"]} for e, mo in letters}
+    return {lname((e, mo, c)): {"entry": e, "model": paths[mos[mo]["model"]], "args": mos[mo]["args"] if e == "main" else [],
+                                "mo": mo, "acc": mos[mo]["acc"], "container": c, "mdl": mos[mo]["model"],
+                                "opts": mos[mo]["opts"] if e == "main" else []} for e, mo, c in letters}
 
 
-def _sweep_table(mdir, nets):
+def _sweep_table(mdir, nets, sd):
+    """the option point of every third network additionally switches on --enable-debug-db, of every other third
+    --enable-debug-db --verbose-performance (files written from process-wide tables); which third rotates with the seed"""
     table, models = {}, {}
     for i, ent in enumerate(nets):
         models["s%d" % i] = ent["net"]
     paths = _write_models(mdir, models)
     for i, ent in enumerate(nets):
         o = ent["opts"]
-        table["main:s%d" % i] = {"entry": "main", "model": paths["s%d" % i], "args": vela_run.cli_args(o), "mo": "s%d" % i,
-                                 "acc": o.get("accel") or "ethos-u65-256", "family": ent["family"], "net": ent["net"]}
-        table["convert:s%d" % i] = {"entry": "convert", "model": paths["s%d" % i], "args": [], "mo": "s%d/default" % i,
-                                    "acc": "ethos-u65-256", "family": ent["family"], "net": ent["net"]}
-        table["convert_bytes:s%d" % i] = {"entry": "convert_bytes", "model": paths["s%d" % i], "args": [], "mo": "s%d/default" % i,
-                                          "acc": "ethos-u65-256", "family": ent["family"], "net": ent["net"]}
+        extra = ([], DDB, DBG)[(i + sd) % 3]
+        common_ = {"model": paths["s%d" % i], "family": ent["family"], "net": ent["net"], "mdl": "s%d" % i}
+        table["main:s%d" % i] = dict(common_, entry="main", args=vela_run.cli_args(o) + list(extra), mo="s%d" % i,
+                                     acc=o.get("accel") or "ethos-u65-256", container="file", opts=["ddb"] if extra else [])
+        table["convert:s%d" % i] = dict(common_, entry="convert", args=[], mo="s%d/default" % i, acc="ethos-u65-256",
+                                        container="file", opts=[])
+        for c in ("ba", "shared", "mvrw", "mvro"):
+            table[lname(("convert_bytes", "s%d" % i, c))] = dict(common_, entry="convert_bytes", args=[], mo="s%d/default" % i,
+                                                                 acc="ethos-u65-256", container=c, opts=[])
     return table
 
 
-def _report(run, rp, stage, events, meta, viol, models_of):
+def _report(run, rp, stage, events, meta, viol, models_of, ref_letter=None):
     """turn TLC's violation list into keyed violations (class = minimal replayed history)."""
     evindex = {(e["t"], e["i"]): e for e in events}
     classes = classify(viol, meta, evindex)
@@ -570,13 +657,16 @@ def _report(run, rp, stage, events, meta, viol, models_of):
             written[g] = written.get(g, 0) + 1
         h, sd, i, t = c["rep"]
         ev = evindex[(t, i)]
-        letters = {x: {k: rp.table[x][k] for k in ("entry", "args", "mo", "acc")} for x in set(h) | set(c["cls"])}
+        involved = set(h) | set(c["cls"]) | {p["l"] for p in ev["peers"]} | ({ref_letter(h[i - 1])} if ref_letter else set())
+        letters = {x: {k: rp.table[x][k] for k in ("entry", "args", "mo", "acc", "container", "mdl", "opts")} for x in involved}
         what = "%s :: step %d (%s) of history [%s] under PYTHONHASHSEED=%d; alone: %s; %d recorded cases of this class" % (
             key, i, h[i - 1], "; ".join(h), sd, ("ok " + ev["idig"]) if ev["iok"] else ev["iexc"], len(c["cases"]))
         run.violation(key, what, {"stage": stage, "history": list(h), "hashseed": sd, "step": i, "minimal": list(c["cls"]),
-                                  "letters": letters, "models": models_of(set(h) | set(c["cls"])),
-                                  "observed": {k: ev[k] for k in ("ok", "exc", "dig", "csv", "vks", "wks", "ams")},
-                                  "reference": {k: ev[k] for k in ("iok", "iexc", "idig", "icsv", "zok", "zexc", "zdig", "zcsv")},
+                                  "letters": letters, "models": models_of(involved),
+                                  "reference_letter": ref_letter(h[i - 1]) if ref_letter else h[i - 1],
+                                  "peers": [p["l"] for p in ev["peers"]],
+                                  "observed": {k: ev[k] for k in ("ok", "exc", "dig", "csv", "art", "inb", "ina", "ino", "vks", "wks", "ams")},
+                                  "reference": {k: ev[k] for k in ("iok", "iexc", "idig", "icsv", "iart", "zok", "zexc", "zdig", "zcsv", "zart", "peers")},
                                   "signature": c["sig"], "property_clause": c["prop"]})
     return listing
 
@@ -621,15 +711,16 @@ def _main(run, tier):
         raise MachineryError("vacuity: no letter of the alphabet compiles alone: %s" % run.cov["alphabet_not_compiling_alone"])
 
     def peers_of(x):
-        e, mo = x.split(":", 1)
-        if "@" in mo:          # main() with other options has no counterpart in convert / convert_bytes
+        """the other ways of compiling the same model with the default options, each alone in a fresh interpreter:
+        the other entry points and, for convert_bytes, the other containers"""
+        me = rp.table[x]
+        if me["mo"] != me["mdl"]:          # main() with other options has no counterpart in convert / convert_bytes
             return []
         out = []
-        for e2 in ENTRIES:
-            if e2 != e:
-                o = outcome(rp.results[(("%s:%s" % (e2, mo),), 0)]["steps"][0])
-                if o["ok"]:
-                    out.append(o["dig"])
+        for y, ty in rp.table.items():
+            if y != x and ty["mo"] == me["mo"]:
+                o = outcome(rp.results[((y,), 0)]["steps"][0])
+                out.append({"ok": o["ok"], "dig": o["dig"], "l": y})
         return out
 
     events, meta = build_events(rp, items, 0, peers_of)
@@ -675,14 +766,34 @@ def _main(run, tier):
         run.sample({"history": list(h), "hashseed": s, "steps": [outcome(x) for x in r["steps"]]})
     # ---- S2C stage 2: generated networks with their option points
     nn = 8 if tier == "quick" else 200
-    # every network costs four (quick) / nine (thorough) fresh interpreters here: sparser sample of the operator-coverage kinds
+    # every network costs five (quick) / eleven (thorough) fresh interpreters here: sparser sample of the operator-coverage kinds
     nets = corpus.all_singles(sd, tier=tier, rotation=18 if tier == "quick" else 3) + twins(sd) + seed_family(sd) + corpus.draw(nn, sd + 14)
-    rp2 = Replayer(run, _sweep_table(os.path.join(mroot, "sweep"), nets), mroot)
+    nets += corpus.shape_sample(sd, tier, k=3, thorough=2)       # graph shapes (corpus_shapes.py), a rotating sample
+    rp2 = Replayer(run, _sweep_table(os.path.join(mroot, "sweep"), nets, sd), mroot)
     items2 = sweep_items(nets, tier)
     n2 = rp2.run_all(items2)
-    events2, meta2 = build_events(rp2, items2, len(items), lambda x: [])
+    for i in range(len(nets)):
+        # the first step of the container history runs in a fresh interpreter: it IS convert_bytes(bytearray) alone
+        ch = container_history(i)
+        r0 = rp2.results[(ch, 0)]
+        rp2.results.setdefault(((ch[0],), 0), {"steps": r0["steps"][:1], "init": r0["init"]})
+
+    def ref_letter(x):
+        return x if ((x,), 0) in rp2.results else lname(("convert_bytes", rp2.table[x]["mdl"], "shared"))
+
+    def iso_of2(x):
+        y = ref_letter(x)
+        return rp2.results[((y,), 0)]["steps"][0], ("same" if y == x else "peer")
+
+    events2, meta2 = build_events(rp2, items2, len(items), lambda x: [], iso_of2)
     viol2, drift2 = validate(run, events2, "HistoryTrace(corpus)")
-    listing2 = _report(run, rp2, "corpus", events2, meta2, viol2, lambda ls: {rp2.table[x]["mo"].split("/")[0]: rp2.table[x]["net"] for x in ls})
+    listing2 = _report(run, rp2, "corpus", events2, meta2, viol2, lambda ls: {rp2.table[x]["mdl"]: rp2.table[x]["net"] for x in ls},
+                       ref_letter)
+    kept_ok = sum(1 for ev in events2 if ev["i"] >= 2 and ev["c"] in ("shared", "mvrw", "mvro") and ev["ok"])
+    with_files = sum(1 for ev in events2 if ev["i"] >= 2 and ev["ok"] and any(a[0].endswith("_debug.xml") for a in ev["art"]))
+    if not kept_ok or not with_files:
+        raise MachineryError("vacuity: no corpus step re-used a kept caller buffer (%d) / wrote a debug database after an "
+                             "earlier compilation (%d)" % (kept_ok, with_files))
     run.evaluated(n2)
     stale2 = 0
     for ev in events2:
@@ -711,15 +822,21 @@ def _main(run, tier):
     run.cov["violation_classes"] = dict(list(listing.items()) + list(listing2.items()))
     run.cov["histories"] = {"alphabet_letters": len(letters), "plan_histories": len(plan), "alphabet_runs": n_runs,
                             "corpus_networks": len(nets), "corpus_runs": n2, "hc_seed": hc,
+                            "corpus_steps_on_a_kept_or_viewed_buffer": kept_ok,
+                            "corpus_later_steps_writing_debug_db": with_files,
                             "replay_wall_s": round(rp.wall + rp2.wall, 1)}
-    run.cov["rule"] = ("stage 1: histories of length <= 3 over the 24-letter alphabet of History_MC.tla (3 entry points x 7 "
-                       "generated models + main() on 3 of them for ethos-u55-128), all of length <= 2, of length 3 "
+    run.cov["rule"] = ("stage 1: histories of length <= 3 over the 26-letter alphabet of History_MC.tla (3 entry points x 6 "
+                       "generated models, main() and convert_bytes on the in-place-rewriting PAD model through a kept bytearray, a "
+                       "writable and a read-only memoryview, main() on 3 models for ethos-u55-128 and on 1 with "
+                       "--enable-debug-db --verbose-performance), all of length <= 2, of length 3 "
                        + ("one per (exposure pattern, entry points, model families) class of the TLC plan (200) plus 40 unexposed"
                           if tier == "quick" else "every history the TLC plan marks as exposed plus 800 unexposed")
                        + "; hash seeds 1 and 2 on a subset; stage 2: corpus networks (every single-operator family, twin networks whose rewrites synthesise equal "
-                       "constants, random draws) X with their option points as X, X;X, "
-                       "P;X (P = the previous network, other accelerator/options)"
-                       + (", X;P;X, convert_bytes twice" if tier == "thorough" else "")
+                       "constants, random draws) X with their option points (two thirds of them with --enable-debug-db, one "
+                       "third also --verbose-performance) as X, X;X, "
+                       "P;X (P = the previous network, other accelerator/options), and through convert_bytes as kept "
+                       "bytearray; a writable memoryview of it; a read-only memoryview"
+                       + (", X;P;X, convert_bytes twice, convert_bytes on a read-only memoryview alone" if tier == "thorough" else "")
                        + ". One fresh interpreter per history. evaluations = interpreters run; non-trivial = distinct "
                        "history prefixes whose last step has a predecessor in the process and is, according to the design "
                        "model's replay plan or by observation, exposed to state written by an earlier step (weight cache, "
@@ -729,7 +846,12 @@ def _main(run, tier):
                         "failures are compared by exception class and first line of the message with numbers masked",
                         "three run-time wrappers observe cache lookups, equivalence-id requests and address assignments; "
                         "they do not change arguments or results",
-                        "the debug database XML (--enable-debug-db) is not part of the compared output"]
+                        "every file a step writes is compared (name and digest; inside text files the path of the output "
+                        "directory is masked); stdout is not compared",
+                        "in the corpus stage the reference of the convert_bytes steps on a kept bytearray / memoryview is the "
+                        "first step of that history (convert_bytes on a new bytearray in a fresh interpreter)",
+                        "bytes objects are not handed to convert_bytes (the reader rejects them: documented input types are "
+                        "bytearray and memoryview)"]
     return run.finish()
 
 
@@ -743,19 +865,37 @@ def replay(path):
     paths = _write_models(mroot, rp0["models"])
     table = {}
     for x, l in rp0["letters"].items():
-        m = l["mo"].split("@")[0].split("/")[0]
-        table[x] = dict(l, model=paths[m])
+        m = l.get("mdl") or re.split(r"[@/+]", l["mo"])[0]
+        table[x] = dict({"container": "ba" if l["entry"] == "convert_bytes" else "file", "mdl": m, "opts": []}, **l)
+        table[x]["model"] = paths[m]
     rp = Replayer(run, table, mroot)
     h, mini, sd, i = tuple(rp0["history"]), tuple(rp0["minimal"]), rp0["hashseed"], rp0["step"]
+    clause = rp0["property_clause"]
     victim = h[i - 1]
-    rp.run_all([((victim,), 0), (h, sd), (h, 0), (mini, sd)])
-    iso = outcome(rp.results[((victim,), 0)]["steps"][0])
-    print("alone   %-40s %s" % (victim, iso))
+    ref = rp0.get("reference_letter") or victim
+    peers = [p for p in rp0.get("peers", []) if p in table]
+    rp.run_all([((ref,), 0), (h, sd), (h, 0), (mini, sd)] + [((p,), 0) for p in peers])
+    iso = outcome(rp.results[((ref,), 0)]["steps"][0])
+    print("alone   %-40s %s" % (ref, iso))
     bad = False
     for hh, label in ((h, "history"), (mini, "minimal")):
-        o = outcome(rp.results[(hh, sd)]["steps"][len(hh) - 1 if hh is mini else i - 1])
-        z = outcome(rp.results[(hh, 0)]["steps"][len(hh) - 1 if hh is mini else i - 1]) if (hh, 0) in rp.results else o
-        same = (o == iso) if rp0["property_clause"] != "HashSeedIndependent" else (o == z)
+        k = len(hh) - 1 if hh is mini else i - 1
+        rec = rp.results[(hh, sd)]["steps"][k]
+        o = outcome(rec)
+        z = outcome(rp.results[(hh, 0)]["steps"][k]) if (hh, 0) in rp.results else o
+        if clause == "HashSeedIndependent":
+            same = o == z
+        elif clause == "CallerStateUntouched":
+            same = not rec or rec.get("died") or rec["ina"] == rec["inb"]
+            o = dict(o, inb=rec and rec.get("inb"), ina=rec and rec.get("ina"))
+        elif clause == "EntryPointIndependent" and peers:
+            po = {p: outcome(rp.results[((p,), 0)]["steps"][0]) for p in peers}
+            same = all(q["ok"] == o["ok"] and (not q["ok"] or q["dig"] == o["dig"]) for q in po.values())
+            for p, q in po.items():
+                print("peer    %-40s %s" % (p, q))
+        else:
+            same = (o["ok"] == iso["ok"] and (not o["ok"] or (o["dig"], o["csv"], o["art"]) == (iso["dig"], iso["csv"], iso["art"]))
+                    and (o["ok"] or ref != victim or o["exc"] == iso["exc"]))
         print("%-7s %-40s %s  -> %s" % (label, "; ".join(hh), o, "same" if same else "DEVIATES"))
         bad = bad or not same
     run.cleanup()
